@@ -140,4 +140,45 @@ def enumValues (st : STy) : Option Val → List (Option Val) → Option (List In
         | some i, some r => some (i :: r)
         | _, _ => none
 
+/-! ### enum numbering with `bit_flags` (`process_enum`): members are bit positions -/
+
+def bitsOf : STy → Nat
+  | .ubyte | .byte | .bool => 8 | .ushort | .short => 16 | .uint | .int => 32 | .ulong | .long => 64
+
+/-- `index.u`: the 64-bit unsigned view of the position counter -/
+def valU : Val → Nat
+  | .uint u => u
+  | .int i => if i ≥ 0 then i.toNat else (i + 18446744073709551616).toNat
+  | .bool b => if b then 1 else 0
+  | .invalid => 0
+
+/-- positions with optional explicit values; result: the flag value of each member or `none` on error. An explicit position
+must be an unsigned literal; a missing one continues from the previous POSITION (not from the flag value); the position must
+be below the bit width of the underlying type and the flag `1 << position` must pass the coercion to that type (which refuses
+the sign bit of the signed types). -/
+def enumFlagValues (st : STy) : Option Val → List (Option Val) → Option (List Int)
+  | _, [] => some []
+  | prev, m :: rest =>
+    let idx : Option Val :=
+      match m with
+      | some (.uint u) => some (.uint u)
+      | some _ => none
+      | none =>
+        match prev with
+        | none => some (.int 0)
+        | some (.uint u) => if st = .ulong ∧ u = 18446744073709551615 then none else some (.uint (u + 1))
+        | some (.int i) => if st = .long ∧ i = 9223372036854775807 then none else some (.int (i + 1))
+        | some (.bool b) => if b then none else some (.bool true)
+        | some .invalid => none
+    match idx with
+    | none => none
+    | some v =>
+      if valU v ≥ bitsOf st then none else
+      match coerce false st (.uint (2 ^ valU v)) with
+      | none => none
+      | some v' =>
+        match valInt v', enumFlagValues st (some v) rest with
+        | some i, some r => some (i :: r)
+        | _, _ => none
+
 end Flatcc.SchemaNum
